@@ -108,3 +108,18 @@ Theorem C14_code_client_formats_download : forall a s af sf ca cs,
   fn_client_formats_download a s af sf ca cs = (m <- mk_memloc a s af sf ;; m2 <- apply_server_formats m ca cs ;; ret (Tie_client_formats.obs_formats m2)).
 Proof. exact tie_client_formats_download. Qed.
 Print Assumptions C14_code_client_formats_download.
+
+(* ---- the code is the rule: a composite definition by memory address announces the first entry's format byte and every other entry must
+   have the same one (DynamicDidDefinition.add / get_alfid executed with symbolic formats, Gen/Fn_Composite.v) ---- *)
+From UDS Require Import Gen.Fn_Composite Proofs.Tie_composite.
+Theorem C14_code_composite_two_entries : forall af1 sf1 af2 sf2,
+  fn_composite_alfid2 af1 sf1 af2 sf2 =
+  (a1 <- format_byte af1 sf1 ;; a2 <- format_byte af2 sf2 ;; if a1 =? a2 then ret a1 else fail EValue).
+Proof. exact tie_composite_alfid2. Qed.
+Print Assumptions C14_code_composite_two_entries.
+Theorem C14_code_composite_three_entries : forall af1 sf1 af2 sf2 af3 sf3,
+  fn_composite_alfid3 af1 sf1 af2 sf2 af3 sf3 =
+  (a1 <- format_byte af1 sf1 ;; a2 <- format_byte af2 sf2 ;; a3 <- format_byte af3 sf3 ;;
+   if (a1 =? a2) && (a1 =? a3) then ret a1 else fail EValue).
+Proof. exact tie_composite_alfid3. Qed.
+Print Assumptions C14_code_composite_three_entries.
